@@ -8,7 +8,7 @@
      rt_find           Stack::find_name_in_function        (load, bin_op_assign)
      rt_set / reg_var  Stack::register_variable_flags      (`store`: update where found in the current
                        function, else bind in the top frame)
-     reg_local         Stack::register_variable_local      (`store_fast`, `unwrap_into`: the top frame only)
+     reg_local         Stack::register_variable_local      (`store_fast`: the top frame only; `unwrap_into` used it too before /repo 2ade5a8)
      del_local         Stack::delete_variable_local        (`delete_name_scoped` after a `from` loop)
    Compiled control flow (compiler/src/ast/{if_statement,while_loop,number_loop}.rs Compile impls): a
    condition is evaluated in the ENCLOSING frame, the body in a fresh special frame that is popped
@@ -99,7 +99,7 @@ Inductive ev : stack -> expr -> stack -> log -> Prop :=
 | ev_opassign_field : forall st a r st1 st2 l1 l2,
     ev st r st1 l1 -> ev st1 (EField a) st2 l2 -> ev st (EOpAssign (EField a) r) st2 (l1 ++ l2)
 | ev_unwrap : forall st x r st1 l1 v,                      (* rhs; unwrap_into x *)
-    ev st r st1 l1 -> ev st (EUnwrap (EVar x) r) (reg_local st1 x v false) l1.
+    ev st r st1 l1 -> ev st (EUnwrap (EVar x) r) (reg_var st1 x v false) l1.   (* register_variable since /repo 2ade5a8 *)
 
 Definition bump (st : stack) (cn : option name) (st' : stack) : Prop :=
   match cn with None => st' = st | Some x => exists v, rt_set st x v = Some st' end.
